@@ -23,7 +23,11 @@ func mustConst(r *core.Run, rel, name string) int64 {
 	return v
 }
 
-func c04(r *core.Run) {
+func c04(r *core.Run) { cacRules(r, "C04.") }
+
+// cacRules: the content-addressed validator, reported under the given rule prefix (C04, and
+// C06 which relies on cac.Valid as the retrieval-side validator).
+func cacRules(r *core.Run, pfx string) {
 	w := r.W
 	span := mustConst(r, "pkg/boson", "SpanSize")
 	chunk := mustConst(r, "pkg/boson", "ChunkSize")
@@ -52,14 +56,14 @@ func c04(r *core.Run) {
 		}
 		v := ret.Results[0]
 		if b, isC := core.ConstBool(v); isC {
-			r.Check("C04.I1", core.Key("C04.I1", fn, "constant return"), ret.Pos(), !b,
+			r.Check(pfx+"I1", core.Key(pfx+"I1", fn, "constant return"), ret.Pos(), !b,
 				"a constant verdict is false", "Valid returns the constant true")
 			return
 		}
 		nNonConst++
 		li := ia.LenAt(data, ret)
 		want := core.Itv{Lo: span, Hi: chunk + span}
-		r.Check("C04.I1", core.Key("C04.I1", fn, "length window at accepting return"), ret.Pos(), li == want,
+		r.Check(pfx+"I1", core.Key(pfx+"I1", fn, "length window at accepting return"), ret.Pos(), li == want,
 			fmt.Sprintf("a chunk can be accepted exactly when SpanSize <= len(payload) <= ChunkSize+SpanSize, i.e. [%d,%d]", want.Lo, want.Hi),
 			fmt.Sprintf("at the accepting return len(payload) ranges over [%d,%s] instead of [%d,%d]", li.Lo, fmtBound(li.Hi), want.Lo, want.Hi))
 		// P1
@@ -99,10 +103,10 @@ func c04(r *core.Run) {
 				why = "bytes.Equal does not compare hasher(payload[SpanSize:])(payload[:SpanSize]) with c.Address().Bytes()"
 			}
 		}
-		r.Check("C04.P1", core.Key("C04.P1", fn, "verdict = hash compare"), ret.Pos(), ok2,
+		r.Check(pfx+"P1", core.Key(pfx+"P1", fn, "verdict = hash compare"), ret.Pos(), ok2,
 			"the verdict is the comparison of the BMT hash of the payload with the chunk's own address", why)
 	})
-	r.Floor("C04.I1", "accepting returns of cac.Valid", nNonConst, 1)
+	r.Floor(pfx+"I1", "accepting returns of cac.Valid", nNonConst, 1)
 
 	// O1: hashing closure order
 	var hcl *ssa.Function
@@ -140,7 +144,7 @@ func c04(r *core.Run) {
 				}
 			}
 		}
-		r.Check("C04.O1", core.Key("C04.O1", hcl, "SetHeader<Write<Hash"), hcl.Pos(), ok,
+		r.Check(pfx+"O1", core.Key(pfx+"O1", hcl, "SetHeader<Write<Hash"), hcl.Pos(), ok,
 			"the span header is set, then the data written, then the hash taken, on one pooled hasher", "the hashing closure no longer does SetHeader(span); Write(data); Hash() in order on the pooled hasher")
 	}
 
@@ -158,11 +162,11 @@ func c04(r *core.Run) {
 		r.Eval(core.EdgeCount(f))
 		fia := core.Intervals(f)
 		calls := core.Calls(f, "pkg/cac.newWithSpan")
-		r.Floor("C04.I2", "newWithSpan calls in "+row.fn, len(calls), 1)
+		r.Floor(pfx+"I2", "newWithSpan calls in "+row.fn, len(calls), 1)
 		for _, c := range calls {
 			li := fia.LenAt(f.Params[0], c)
 			want := core.Itv{Lo: row.lo, Hi: row.hi}
-			r.Check("C04.I2", core.Key("C04.I2", f, "input length window"), c.Pos(), li == want,
+			r.Check(pfx+"I2", core.Key(pfx+"I2", f, "input length window"), c.Pos(), li == want,
 				fmt.Sprintf("the constructor is reached exactly for input lengths [%d,%d]", want.Lo, want.Hi),
 				fmt.Sprintf("input length ranges over [%d,%s] at the constructor call, expected [%d,%d]", li.Lo, fmtBound(li.Hi), want.Lo, want.Hi))
 		}
@@ -176,7 +180,7 @@ func c04(r *core.Run) {
 					return isLen && c.Call.Args[0] == ssa.Value(f.Params[0])
 				}, nil)
 			}
-			r.Check("C04.I2", core.Key("C04.I2", f, "span = LE len(data)"), f.Pos(), ok,
+			r.Check(pfx+"I2", core.Key(pfx+"I2", f, "span = LE len(data)"), f.Pos(), ok,
 				"the span written by New is the little-endian data length", "New does not write len(data) as a little-endian uint64 span")
 		}
 	}
